@@ -45,6 +45,18 @@ PostOK(e, s) ==
 VerdictCS(p, e, s) ==
   IF "panic" \in DOMAIN e THEN V("panic", e.op, e.panic)
   ELSE IF e.op = "Select" THEN SelectVerdict(e)
+  ELSE IF e.op = "SimpleCoin" THEN
+         \* coin k is output k of the transaction: its hash, index, value, script; confirmations as given; value-age = product
+         LET n == Len(e.values)
+             bad == {k \in 1..n : \/ e.coins[k].hash # e.fresh \/ e.coins[k].index # k - 1 \/ e.coins[k].value # e.values[k]
+                                   \/ e.coins[k].confs # e.confs + k - 1 \/ e.coins[k].va # e.values[k] * (e.confs + k - 1)
+                                   \/ e.coins[k].script # <<81, k - 1>>}
+             sum(F(_)) == FoldLeft(LAMBDA acc, k : acc + F(k), 0, [k \in 1..n |-> k])
+         IN IF Len(e.coins) # n THEN V("simple-coin-count", n, Len(e.coins))
+            ELSE IF bad # {} THEN V("simple-coin-fields", CHOOSE k \in bad : TRUE, e.coins[CHOOSE k \in bad : TRUE])
+            ELSE IF e.num # n \/ e.total # sum(LAMBDA k : e.values[k]) \/ e.totalage # sum(LAMBDA k : e.values[k] * (e.confs + k - 1))
+              THEN V("coinset-total-value", [num |-> n], [num |-> e.num, total |-> e.total, totalage |-> e.totalage])
+            ELSE OK
   ELSE IF e.op \in {"CsNew", "CsPush"} THEN PostOK(e, s)
   ELSE IF e.op = "CsPop" THEN
          IF e.ret # (IF Len(p) = 0 THEN 0 ELSE p[Len(p)].id) THEN V("pop-result", IF Len(p) = 0 THEN 0 ELSE p[Len(p)].id, e.ret) ELSE PostOK(e, s)
